@@ -10,6 +10,9 @@
 (* record r (numbered in order of creation) handled again by h,                *)
 (* <<6, k>> = the next Write fails (1 error, 2 short write, 3 panic); rets     *)
 (* says how each Handle call of the path ends (0 = its line is written),       *)
+(* <<7, c>> = the environment sets the cell of the live values to c (live =    *)
+(* the kind of live value; vals in out = what each attribute of the line       *)
+(* evaluates to, 0 for the ordinary ones),                                     *)
 (* <<3, h>> = h.WithGroup(...) (panics).  The ids of a batch are the last k    *)
 (* entries of the new handler's attrs, those of a record the first n entries   *)
 (* of its predicted line.                                                      *)
@@ -48,17 +51,20 @@ GNext ==
             /\ WithGroup(h)
             /\ hist' = Append(hist, <<3, h>>)
        \/ \E k \in Faults : ArmFault(k) /\ hist' = Append(hist, <<6, k>>)
+       \/ Tick /\ hist' = Append(hist, <<7, cell + 1>>)
 GSpec == GInit /\ [][GNext]_gvars
 
 Vector == [thr   |-> thr,
            ops   |-> hist,
            attrs |-> attrs,
            rets  |-> rets,
+           live  |-> LiveKind,
            recs  |-> [r \in 1..Len(recs) |-> recs[r].attrs],
            out   |-> [i \in 1..Len(out) |->
                         [h |-> out[i].h, lv |-> out[i].lv, r |-> out[i].r, n |-> Len(out[i].rec),
-                         err |-> Bit(ExpectedLine(out[i].h, out[i].lv, out[i].r, out[i].rec).sev = "ERROR"),
-                         attrs |-> ExpectedLine(out[i].h, out[i].lv, out[i].r, out[i].rec).attrs]],
+                         err |-> Bit(Severity(out[i].lv) = "ERROR"),
+                         attrs |-> out[i].rec \o attrs[out[i].h],
+                         vals |-> out[i].want]],
            lvls  |-> ProbeSeq,
            err   |-> [i \in 1..Len(ProbeSeq) |-> Bit(Severity(ProbeSeq[i]) = "ERROR")],
            en    |-> [i \in 1..Len(ProbeSeq) |-> Bit(IsEnabled(ProbeSeq[i]))]]
